@@ -924,6 +924,7 @@ walk_descents(cholmod_sparse *AtA_F,
 	pthread_t *threads;
 	pthread_attr_t thread_attr;
 	descent_trial *descent_trials;
+	cholmod_common *thread_c;
 				
 	nF = *nF_;
 	nH1 = *nH1_;
@@ -999,6 +1000,17 @@ walk_descents(cholmod_sparse *AtA_F,
 		memcpy(&descent_trials[i], &descent_trials[0],
 		    sizeof(descent_trial));
 		descent_trials[i].id = i;
+	}
+
+	/*
+	 * Every CHOLMOD call updates the bookkeeping in its cholmod_common
+	 * (status, allocation counters), so the workers must not share the
+	 * caller's: give each of them a private one.
+	 */
+	thread_c = (cholmod_common*)malloc(n_threads*sizeof(cholmod_common));
+	for (i = 0; i < n_threads; i++) {
+		cholmod_l_start(&thread_c[i]);
+		descent_trials[i].c = &thread_c[i];
 	}
 							
 	n_blocks = (int)ceil(n_alpha/((double)(n_threads)));
@@ -1127,8 +1139,10 @@ walk_descents(cholmod_sparse *AtA_F,
 			free(descent_trials[k].H1);
 		if (descent_trials[k].x_c)
 			cholmod_l_free_dense(
-			    &(descent_trials[k].x_c), c);
+			    &(descent_trials[k].x_c), &thread_c[k]);
+		cholmod_l_finish(&thread_c[k]);
 	}
+	free(thread_c);
 
 	/* Clean up pthreads-related detritus */
 	pthread_cond_destroy(&cv);
